@@ -2776,6 +2776,23 @@ pub mod verif {
             id
         }
 
+        /// What `start_server` does with every queue found in the journal: the queue is re-created under its recorded id.
+        pub fn restore_queue(
+            &mut self,
+            queue_id: QueueId,
+            params: QueueParameters,
+            handler: Box<dyn QueueHandler>,
+        ) -> QueueId {
+            let queue = AllocationQueue::new(
+                QueueInfo::new(params.clone()),
+                params.name.clone(),
+                handler,
+                create_rate_limiter(),
+                None,
+            );
+            self.state.add_queue(queue, Some(queue_id))
+        }
+
         pub async fn worker_connected(
             &mut self,
             worker_id: WorkerId,
